@@ -26,10 +26,22 @@ pub struct CliObs {
     pub stderr: String,
 }
 
+/// A child must never outlive the worker that started it (the worker may be killed by the watchdog).
+pub fn die_with_parent(c: &mut Command) {
+    use std::os::unix::process::CommandExt;
+    unsafe {
+        c.pre_exec(|| {
+            libc::prctl(libc::PR_SET_PDEATHSIG, libc::SIGKILL);
+            Ok(())
+        });
+    }
+}
+
 pub fn run_cli(kind: &str, args: &[String], stdin: Option<&str>) -> CliObs {
     use std::os::unix::process::ExitStatusExt;
     let mut c = Command::new(cli_bin(kind));
     c.args(args).env_remove("RUST_BACKTRACE").stdout(Stdio::piped()).stderr(Stdio::piped());
+    die_with_parent(&mut c);
     c.stdin(if stdin.is_some() { Stdio::piped() } else { Stdio::null() });
     let mut child = c.spawn().expect("cannot start the jsonlogic binary");
     if let Some(text) = stdin {
@@ -118,9 +130,20 @@ fn nested_text(depth: usize) -> String {
     format!("{}1{}", "[".repeat(depth), "]".repeat(depth))
 }
 
-fn judge_cli(ctx: &mut Ctx, sub: &str, kind: &str, args: Vec<String>, stdin: Option<&str>, exp: &LibExpect, strict_stdout: bool) -> CliObs {
+fn judge_cli(ctx: &mut Ctx, sub: &str, kind: &str, args: Vec<String>, stdin: Option<&str>, texts: Option<(&str, &str)>, strict_stdout: bool) -> CliObs {
     let case = json!({"bin": kind, "argv": args, "stdin": stdin});
     ctx.tick_external(&case);
+    let computed;
+    let exp: &LibExpect = match texts {
+        Some((r, d)) => {
+            computed = lib_expect(r, d);
+            &computed
+        }
+        None => {
+            computed = LibExpect { stdout: String::new(), success: false, why: "usage".into() };
+            &computed
+        }
+    };
     let o = run_cli(kind, &args, stdin);
     ctx.leaves += 1;
     let class = format!("exit:{}", o.code.map(|c| c.to_string()).unwrap_or_else(|| format!("signal{}", o.signal.unwrap_or(0))));
@@ -158,18 +181,17 @@ pub fn c18(ctx: &mut Ctx) {
                 if !ctx.mine() {
                     continue;
                 }
-                let exp = lib_expect(r, d);
                 // a bare "-" as data argument means stdin, so that text cannot be delivered as an argument
                 if *d != "-" {
                     ctx.edge();
-                    judge_cli(ctx, "data-as-argument", kind, vec![r.to_string(), d.to_string()], None, &exp, true);
+                    judge_cli(ctx, "data-as-argument", kind, vec![r.to_string(), d.to_string()], None, Some((r, d)), true);
                     ctx.edge();
-                    judge_cli(ctx, "data-as-argument+junk-stdin", kind, vec![r.to_string(), d.to_string()], Some("{{{ junk"), &exp, true);
+                    judge_cli(ctx, "data-as-argument+junk-stdin", kind, vec![r.to_string(), d.to_string()], Some("{{{ junk"), Some((r, d)), true);
                 }
                 ctx.edge();
-                judge_cli(ctx, "stdin-no-argument", kind, vec![r.to_string()], Some(d), &exp, true);
+                judge_cli(ctx, "stdin-no-argument", kind, vec![r.to_string()], Some(d), Some((r, d)), true);
                 ctx.edge();
-                judge_cli(ctx, "stdin-dash", kind, vec![r.to_string(), "-".to_string()], Some(d), &exp, true);
+                judge_cli(ctx, "stdin-dash", kind, vec![r.to_string(), "-".to_string()], Some(d), Some((r, d)), true);
             }
         }
         // nesting at the parser's limit, both as rule and as data
@@ -178,10 +200,8 @@ pub fn c18(ctx: &mut Ctx) {
                 continue;
             }
             let t = nested_text(depth);
-            let exp = lib_expect(&t, "null");
-            judge_cli(ctx, "deep-rule", kind, vec![t.clone(), "null".into()], None, &exp, true);
-            let exp = lib_expect(r#"{"var":""}"#, &t);
-            judge_cli(ctx, "deep-data-stdin", kind, vec![r#"{"var":""}"#.into()], Some(&t), &exp, true);
+            judge_cli(ctx, "deep-rule", kind, vec![t.clone(), "null".into()], None, Some((&t, "null")), true);
+            judge_cli(ctx, "deep-data-stdin", kind, vec![r#"{"var":""}"#.into()], Some(&t), Some((r#"{"var":""}"#, &t)), true);
         }
         // chaining: jsonlogic r2 < <(jsonlogic r1 d)
         let valid_rules: Vec<&str> = rules.iter().filter(|r| serde_json::from_str::<Value>(r).is_ok() && !r.contains("log")).cloned().collect();
@@ -193,12 +213,10 @@ pub fn c18(ctx: &mut Ctx) {
                 }
                 for d in &chain_data {
                     ctx.edge();
-                    let e1 = lib_expect(r1, d);
-                    let o1 = judge_cli(ctx, "chain:first", kind, vec![r1.to_string(), d.to_string()], None, &e1, true);
+                    let o1 = judge_cli(ctx, "chain:first", kind, vec![r1.to_string(), d.to_string()], None, Some((r1, d)), true);
                     // whatever the first really printed is the stdin of the second, which must compute
                     // apply(r2, parse(that output)) - or fail if the first printed nothing
-                    let e2 = lib_expect(r2, &o1.stdout);
-                    judge_cli(ctx, "chain:second", kind, vec![r2.to_string()], Some(&o1.stdout), &e2, true);
+                    judge_cli(ctx, "chain:second", kind, vec![r2.to_string()], Some(&o1.stdout), Some((r2, &o1.stdout)), true);
                 }
             }
         }
@@ -227,8 +245,7 @@ pub fn c01_cli(ctx: &mut Ctx) {
                     if rule.contains("\\u0000") {
                         continue;
                     }
-                    let exp = lib_expect(&rule, r#"{"a":[1,"x"]}"#);
-                    judge_cli(ctx, "cli:extremes", kind, vec![rule], Some(r#"{"a":[1,"x"]}"#), &exp, false);
+                    judge_cli(ctx, "cli:extremes", kind, vec![rule.clone()], Some(r#"{"a":[1,"x"]}"#), Some((&rule, r#"{"a":[1,"x"]}"#)), false);
                 }
             }
         }
@@ -243,30 +260,24 @@ pub fn c01_cli(ctx: &mut Ctx) {
                     continue;
                 }
                 let d = a.to_string();
-                let exp = lib_expect(&rule, &d);
-                judge_cli(ctx, "cli:extremes-var", kind, vec![rule], Some(&d), &exp, false);
+                judge_cli(ctx, "cli:extremes-var", kind, vec![rule.clone()], Some(&d), Some((&rule, &d)), false);
                 let rule = json!({"substr": ["héllo", b, b]}).to_string();
-                let exp = lib_expect(&rule, &d);
-                judge_cli(ctx, "cli:extremes-substr", kind, vec![rule, d.clone()], None, &exp, false);
+                judge_cli(ctx, "cli:extremes-substr", kind, vec![rule.clone(), d.clone()], None, Some((&rule, &d)), false);
             }
         }
         // deep chains and deep data
         if ctx.mine() {
             for depth in [63usize, 64, 126, 127, 128, 129] {
                 let t = format!("{}{}{}", r#"{"!":"#.repeat(depth), "1", "}".repeat(depth));
-                let exp = lib_expect(&t, "null");
-                judge_cli(ctx, "cli:deep-chain", kind, vec![t, "null".into()], None, &exp, false);
+                judge_cli(ctx, "cli:deep-chain", kind, vec![t.clone(), "null".into()], None, Some((&t, "null")), false);
                 let t = format!("{}{}{}", r#"{"cat":["a","#.repeat(depth), "1", "]}".repeat(depth));
-                let exp = lib_expect(&t, "null");
-                judge_cli(ctx, "cli:deep-chain", kind, vec![t, "null".into()], None, &exp, false);
+                judge_cli(ctx, "cli:deep-chain", kind, vec![t.clone(), "null".into()], None, Some((&t, "null")), false);
                 let t = nested_text(depth);
-                let exp = lib_expect(r#"{"cat":[{"var":""}]}"#, &t);
-                judge_cli(ctx, "cli:deep-data", kind, vec![r#"{"cat":[{"var":""}]}"#.into()], Some(&t), &exp, false);
+                judge_cli(ctx, "cli:deep-data", kind, vec![r#"{"cat":[{"var":""}]}"#.into()], Some(&t), Some((r#"{"cat":[{"var":""}]}"#, &t)), false);
             }
             // no arguments at all, too many arguments, options
             for args in [vec![], vec!["1".to_string(), "2".to_string(), "3".to_string()], vec!["--help".to_string()], vec!["-V".to_string()], vec!["--nope".to_string()]] {
-                let exp = LibExpect { stdout: String::new(), success: false, why: "usage".into() };
-                judge_cli(ctx, "cli:usage", kind, args, Some(""), &exp, false);
+                judge_cli(ctx, "cli:usage", kind, args, Some(""), None, false);
             }
         }
     }
@@ -286,7 +297,9 @@ pub fn python(ctx: &mut Ctx, mode: &str) {
         let me = std::env::current_exe().unwrap();
         let case = json!({"python_driver": mode, "kind": kind, "shard": ctx.shard});
         ctx.tick_external(&case);
-        let st = Command::new("python3")
+        let mut pc = Command::new("python3");
+        die_with_parent(&mut pc);
+        let st = pc
             .arg(&driver)
             .arg(mode)
             .arg(pypkg(kind))
